@@ -476,6 +476,13 @@ def check_builder(ctx: Ctx, f: FuncInfo, src_kind: str) -> None:
     env = {unparse(st.targets[0]): st.value for st in f.body if isinstance(st, ast.Assign)}
     it = loops[0].iter
     it_src = env.get(unparse(it), it)
+    if isinstance(it, ast.Name) and not (isinstance(it_src, ast.Call) and call_name(it_src) == ("sorted",)):
+        # bound unsorted, then sorted in place before the loop:  x = <source>; x.sort(); for item in x
+        sorts = [st for st in f.body[: f.body.index(loops[0])] if isinstance(st, ast.Expr) and isinstance(st.value, ast.Call) and isinstance(st.value.func, ast.Attribute)
+                 and st.value.func.attr == "sort" and isinstance(st.value.func.value, ast.Name) and st.value.func.value.id == it.id and not st.value.args and not st.value.keywords]
+        binds = [st for st in f.body if isinstance(st, ast.Assign) and len(st.targets) == 1 and isinstance(st.targets[0], ast.Name) and st.targets[0].id == it.id]
+        if len(sorts) == 1 and len(binds) == 1 and f.body.index(binds[0]) < f.body.index(sorts[0]):
+            it_src = ast.Call(func=ast.Name(id="sorted", ctx=ast.Load()), args=[binds[0].value], keywords=[])
     if not (isinstance(it_src, ast.Call) and call_name(it_src) == ("sorted",)):
         # positively unsorted: the argument itself, or a plain container copy of it
         raw = it_src.args[0] if isinstance(it_src, ast.Call) and call_name(it_src) in (("list",), ("tuple",), ("set",), ("frozenset",)) and it_src.args else it_src
